@@ -56,7 +56,7 @@ def run(ctx):
     t = Tally(ctx, "B-05 set / add / delete through the dict interface: byte locality and read-back",
               "generated documents (1-3 paragraphs; fields with attached comments, inner comments, 0-2 continuation lines, odd "
               "spacing, empty values; free comments between paragraphs; with and without final newline, trailing blanks on an "
-              "unterminated last line) x histories of 1-3 operations (set existing key under any case, add new key, delete) with "
+              "unterminated last line) x histories of 1-3 operations (set existing key under any case, add new key, delete, assignments the library refuses) with "
               "single- and multi-line values; expected bytes from an independent span scanner; non-trivial = distinct (document, history)",
               "%d (document, history) pairs" % rounds)
     for _ in range(rounds):
@@ -80,6 +80,29 @@ def run(ctx):
                 break
             pi = rng.randrange(len(paras))
             par, p = paras[pi], pars[pi]
+            if rng.random() < 0.25:
+                # an assignment the library refuses (a continuation line that does not start with a blank) leaves the document
+                # exactly as it was - on an existing field (with its comments) and for a new name alike
+                f_ = rng.choice(par)
+                key_ = rng.choice([f_.name, f_.name.upper(), "Zz-New"])
+                bad_val = rng.choice(["x\ny", "x\n\n y", "a\n\tb\nc", "v\n# c\nw"])
+                try:
+                    p[key_] = bad_val
+                    refused = False
+                except ValueError:
+                    refused = True
+                except Exception as e:
+                    ok = t.failed("a refused assignment raised %r instead of ValueError" % (e,), document=doc, operations=ops + [[pi, "set", key_, bad_val]]) and False
+                    break
+                if refused and d.dump() != text:
+                    ok = t.failed("an assignment that was refused with ValueError changed the document", document=doc,
+                                  operations=ops + [[pi, "refused set", key_, bad_val]], before=text, after=d.dump()) and False
+                    break
+                if not refused:
+                    ok = t.failed("a value with a continuation line that does not start with a blank was accepted", document=doc,
+                                  operations=ops + [[pi, "set", key_, bad_val]], after=d.dump()) and False
+                    break
+                ops.append([pi, "refused set", key_, bad_val])
             try:
                 op = rng.choice(["set", "set", "add", "del"])
                 names_here = [f.name for f in par]
